@@ -28,8 +28,7 @@ RULE = (
     'the checkers build (seam S1), state bijection onto another type family, '
     'shuffled S/R/L and label order, omitted S, duplicated transitions, atom '
     'renaming, unreachable padding states, initial states, other container '
-    'types for S/R/S0/labels (tuple, set, frozenset, dict keys, one-shot '
-    'iterator).  evaluations = '
+    'types for S/R/S0/labels (tuple, set, frozenset, dict keys).  evaluations = '
     'executions (baseline + perturbed + stage-2 interpreter evaluations).  A '
     'case is NON-TRIVIAL when at least one of its executions made a '
     'non-identity scheduler decision at a site with >=2 elements or used a '
